@@ -1,4 +1,5 @@
 import AtsimModel.Model.PairTables
+import AtsimModel.Gen.Logic
 import Mathlib.Tactic.Ring
 import Mathlib.Tactic.FieldSimp
 import Mathlib.Tactic.Linarith
@@ -155,4 +156,5 @@ theorem C02_kernel_step (mesh : Rat) (k : Nat) :
 theorem C02_kernel_force (r f : Rat) : evalQ (envQ [r, f]) k_dlpoly_force = r * f := by
   kernel_unfold [k_dlpoly_force]
   kernel_close
+
 end Atsim.C02
